@@ -3,9 +3,9 @@
    (rdp._grdp / grdp / mp_grdp / min_point_rdp); dist, prio, gcost are ORACLES (any valuation, NaN included).
    All Tier S.  `curved is_r2 t c` is the code's own test (c < t for R2, c >= t otherwise): the accepting side
    of t is `curved = false`. *)
-From Coq Require Import List Arith Bool.
+From Coq Require Import ZArith List Arith Bool PrimFloat.
 From Knee Require Import Num NpList Model.Mapping Model.RdpFixed Model.RdpFixedSpec
-     Proofs.ListFacts Proofs.MappingFacts Proofs.RdpFixedFacts.
+     Proofs.ListFacts Proofs.MappingFacts Proofs.RdpFixedFacts Proofs.RdpFixedBool Run.JudgeC05 Run.JudgeC06.
 Import ListNotations.
 
 (* grdp = S_{k*}: k* the least k in [2,n] whose fixed-size result S_k is on the accepting side of t, else n (all points) *)
@@ -59,3 +59,32 @@ Theorem C06_grdp_total : forall (N : Num) n (eps : T N) dist prio,
   exists red, grdp n eps dist prio gcost is_r2 t fuel = Some (red, rows red) /\ WF n red.
 Proof. exact @grdp_total. Qed.
 Print Assumptions C06_grdp_total.
+
+(* the boolean predicates the correspondence run judges the implementation with (Model/RdpFixedSpec.v) are true of the
+   model's outputs, for every oracle valuation: chain = the model's own fixed-size chain [S_2; ...; S_n] *)
+Theorem C06_grdp_ok_model : forall (N : Num) n (eps : T N) dist prio gcost,
+  2 <= n -> (forall l r, l + 3 <= r -> r <= n -> length (dist l r) = r - l) ->
+  forall is_r2 t fuel, n <= fuel ->
+  grdp_ok gcost is_r2 t (RdpFixedBool.model_chain n eps dist prio fuel) (grdp n eps dist prio gcost is_r2 t fuel) = true.
+Proof. exact @grdp_ok_model. Qed.
+Print Assumptions C06_grdp_ok_model.
+Theorem C06_mp_grdp_ok_model : forall (N : Num) n (eps : T N) dist prio gcost,
+  2 <= n -> (forall l r, l + 3 <= r -> r <= n -> length (dist l r) = r - l) ->
+  forall is_r2 t fuel m, n <= fuel ->
+  mp_grdp_ok n gcost is_r2 t m (RdpFixedBool.model_chain n eps dist prio fuel) (mp_grdp n eps dist prio gcost is_r2 t fuel m) = true.
+Proof. exact @mp_grdp_ok_model. Qed.
+Print Assumptions C06_mp_grdp_ok_model.
+Theorem C06_min_point_ok_model : forall (N : Num) n (eps : T N) dist prio gcost,
+  2 <= n -> (forall l r, l + 3 <= r -> r <= n -> length (dist l r) = r - l) ->
+  forall ts fuel m, n <= fuel ->
+  min_point_ok n gcost false ts m (RdpFixedBool.model_chain n eps dist prio fuel) (min_point_rdp n eps dist prio gcost fuel ts m) = true.
+Proof. exact @min_point_ok_model. Qed.
+Print Assumptions C06_min_point_ok_model.
+
+(* non-vacuity: the curve [[0,3],[1,1],[2,2],[3,2],[4,1],[5,3]] with the default configuration (shortest, segment, smape):
+   tables = the library's primitives, the chain and the query outputs are what the implementation returned; thresholds
+   include exact ties with observed global costs (which are not monotone along the chain here).  judge = 0: the model
+   reproduces every output and the predicates hold. *)
+Example C06_example :
+  judge (CG 6%nat false [((0%nat, 3%nat), [0x0.0p+0%float; 0x1.5775c544ff263p+0%float; 0x0.0p+0%float]); ((0%nat, 4%nat), [0x0.0p+0%float; 0x1.94c583ada5b52p+0%float; 0x1.43d136248490ep-2%float; 0x0.0p+0%float]); ((0%nat, 5%nat), [0x0.0p+0%float; 0x1.5775c544ff263p+0%float; 0x0.0p+0%float; 0x1.c9f25c5bfeddap-2%float; 0x0.0p+0%float]); ((0%nat, 6%nat), [0x0.0p+0%float; 0x1.0000000000000p+1%float; 0x1.0000000000000p+0%float; 0x1.0000000000000p+0%float; 0x1.0000000000000p+1%float; 0x0.0p+0%float]); ((1%nat, 4%nat), [0x0.0p+0%float; 0x1.c9f25c5bfedd9p-2%float; 0x0.0p+0%float]); ((1%nat, 5%nat), [0x0.0p+0%float; 0x1.0000000000000p+0%float; 0x1.0000000000000p+0%float; 0x0.0p+0%float]); ((1%nat, 6%nat), [0x0.0p+0%float; 0x1.c9f25c5bfedd9p-2%float; 0x0.0p+0%float; 0x1.5775c544ff263p+0%float; 0x0.0p+0%float]); ((2%nat, 5%nat), [0x0.0p+0%float; 0x1.c9f25c5bfedd9p-2%float; 0x0.0p+0%float]); ((2%nat, 6%nat), [0x0.0p+0%float; 0x1.43d136248490fp-2%float; 0x1.94c583ada5b52p+0%float; 0x0.0p+0%float]); ((3%nat, 6%nat), [0x0.0p+0%float; 0x1.5775c544ff263p+0%float; 0x0.0p+0%float])] [((0%nat, 3%nat), 0x1.2000000000000p+1%float); ((0%nat, 4%nat), 0x1.71c71c71c71c6p+1%float); ((0%nat, 5%nat), 0x1.4000000000000p+1%float); ((1%nat, 4%nat), 0x1.0000000000000p-2%float); ((1%nat, 5%nat), 0x1.0000000000000p+1%float); ((1%nat, 6%nat), 0x1.4000000000000p+1%float); ((2%nat, 5%nat), 0x1.0000000000000p-2%float); ((2%nat, 6%nat), 0x1.71c71c71c71c9p+1%float); ((3%nat, 6%nat), 0x1.2000000000000p+1%float)] [([0%nat; 5%nat], 0x1.dddddddddddddp-2%float); ([0%nat; 1%nat; 5%nat], 0x1.4e5e0a72f0539p-3%float); ([0%nat; 1%nat; 4%nat; 5%nat], 0x1.5555555555555p-3%float); ([0%nat; 1%nat; 2%nat; 4%nat; 5%nat], 0x1.0410410410410p-5%float); ([0%nat; 1%nat; 2%nat; 3%nat; 4%nat; 5%nat], 0x0.0p+0%float)] [[0%nat; 5%nat]; [0%nat; 1%nat; 5%nat]; [0%nat; 1%nat; 4%nat; 5%nat]; [0%nat; 1%nat; 2%nat; 4%nat; 5%nat]; [0%nat; 1%nat; 2%nat; 3%nat; 4%nat; 5%nat]] [QGrdp 0x1.ddddddddddddep-2%float (Some ([0%nat; 5%nat], [(0%nat, 4%nat)])); QMp 0x1.ddddddddddddep-2%float 3%nat (Some ([0%nat; 1%nat; 5%nat], [(0%nat, 0%nat); (1%nat, 3%nat)])); QMp 0x1.ddddddddddddep-2%float 5%nat (Some ([0%nat; 1%nat; 2%nat; 4%nat; 5%nat], [(0%nat, 0%nat); (1%nat, 0%nat); (2%nat, 1%nat); (4%nat, 0%nat)])); QGrdp 0x1.5555555555555p-3%float (Some ([0%nat; 1%nat; 5%nat], [(0%nat, 0%nat); (1%nat, 3%nat)])); QMp 0x1.5555555555555p-3%float 4%nat (Some ([0%nat; 1%nat; 4%nat; 5%nat], [(0%nat, 0%nat); (1%nat, 2%nat); (4%nat, 0%nat)])); QMin [0x1.4e5e0a72f0538p-3%float; 0x1.0000000000000p-1%float; 0x1.0000000000000p-1%float; 0x1.5555555555555p-3%float; 0x0.0000000000001p-1022%float] 2%nat (Some ([0%nat; 5%nat], [(0%nat, 4%nat)])); QMin [0x1.4e5e0a72f0538p-3%float] 2%nat (Some ([0%nat; 1%nat; 2%nat; 4%nat; 5%nat], [(0%nat, 0%nat); (1%nat, 0%nat); (2%nat, 1%nat); (4%nat, 0%nat)])); QMin [0x1.5555555555554p-3%float; 0x1.5555555555554p-3%float] 2%nat (Some ([0%nat; 1%nat; 5%nat], [(0%nat, 0%nat); (1%nat, 3%nat)]))]) = 0%Z.
+Proof. vm_compute. reflexivity. Qed.
